@@ -68,6 +68,12 @@ Definition K_ENCODING := 31.       (* ByteArray.Attributes.encoding *)
 Definition K_PROT := 32.           (* Attributes.prot: set by 'prot', 'protocol' and 'p' *)
 Definition K_PROTOCOL := 33.       (* only ever a keyword argument *)
 Definition K_P := 34.              (* only ever a keyword argument *)
+Definition K_PRIMARY_KEY := 35.    (* Attributes.primary_key; keyword 'primary_key' *)
+Definition K_PK := 36.             (* keyword 'pk' *)
+Definition K_COL_PK := 37.         (* sqla_column_args[-1]['primary_key'] *)
+(* 38 autoincrement, 39 onupdate, 40 server_default: keywords that are written ONLY into the keyword
+   dictionary of Attributes.sqla_column_args, which every derivative gets as a deep copy of its
+   original's: an entry is found through the chain of base classes like any attribute *)
 
 Definition kwargs := list (akey * aval).
 
@@ -295,7 +301,7 @@ Definition flat (s : store) (c : cid) := flat_f FUEL (cl s) c.
 (** * observation of a class: the structural snapshot the property names *)
 Definition obs_keys : list akey :=
   [0; 1; 2; 3; 4; 5; 6; 7; 8; 9; 10; 11; 12; 13; 14; 15; 16; 17; 18; 19; 20; 22; 23;
-   24; 25; 26; 27; 28; 29; 30; 31; 32].
+   24; 25; 26; 27; 28; 29; 30; 31; 32; 35; 37; 38; 39; 40].
 
 Inductive snap :=
 | SBad                      (* dangling identity *)
@@ -348,6 +354,7 @@ Definition apply_kwarg (kv : akey * aval) (acc : list (akey * aval)) : list (ake
   if (k <? 0) || (k =? K_EXPLICIT_TN) then acc                  (* leading underscore: ignored *)
   else if k =? K_TYPE_NAME then (K_EXPLICIT_TN, VBool true) :: acc
   else if (k =? K_PROTOCOL) || (k =? K_P) then (K_PROT, v) :: acc
+  else if (k =? K_PRIMARY_KEY) || (k =? K_PK) then (K_PRIMARY_KEY, v) :: (K_COL_PK, v) :: acc
   else if k =? K_EXC_TABLE then (K_EXC_TABLE, v) :: (K_EXC_DB, v) :: acc
   else if (k =? K_MAX_OCCURS) && is_unbounded v then (K_MAX_OCCURS, VInf) :: acc
   else (k, v) :: acc.
